@@ -754,7 +754,7 @@ func init() {
 
 		r := newRng(*f.seed).fork() // fork: seeds n and n+1 of the shared splitmix state are one draw apart
 
-		// hand-picked formulas first: the candidate-defect witnesses and the limits
+		// hand-picked formulas first: the regressions of the fixed defects F8/F8b (empty option, empty line) and the limits
 		fixed := []c14Formula{
 			{},
 			{{}},
